@@ -35,12 +35,12 @@ func findHarness(fn string) *Harness {
 
 var registry = []Harness{
 	{Prop: "C01", Pkg: "balance", Func: "VerifC01Op", Link: []string{"netmap", "balance"},
-		Quick:    [][]int{{0, 20, 20}, {0, 0, 20}, {0, 20, 19}, {1, 20, 20}, {2, 20, 20}, {3, 20, 20}, {4, 20, 20}, {5, 20, 20}},
-		Thorough: [][]int{{0, 20, 20}, {0, 0, 20}, {0, 19, 20}, {0, 21, 20}, {0, 20, 0}, {0, 20, 19}, {0, 20, 21}, {1, 20, 20}, {2, 20, 20}, {3, 20, 20}, {4, 20, 20}, {5, 20, 20}},
-		Bound:    "state: mint(a0,x0) mint(a1,x1) lock(a0->lk,y,until), all amounts symbolic; then ONE operation (param 0: transfer/transferX/mint/burn/lock/newEpoch) with symbolic 20-byte (public transfer: also 0/19/21-byte) from/to free to alias any account, symbolic amount in Z (the epoch of newEpoch: -2^62 <= e < 2^62, it is turned into bytes), symbolic signer set {Alphabet,a0,a1}+stranger; unwind 16"},
+		Quick:    [][]int{{0, 20, 20, 1}, {0, 0, 20, 1}, {0, 20, 19, 1}, {1, 20, 20, 1}, {2, 20, 20, 1}, {3, 20, 20, 1}, {4, 20, 20, 1}, {5, 20, 20, 1}, {1, 20, 20, 3}, {3, 20, 20, 6}},
+		Thorough: [][]int{{0, 20, 20, 1}, {0, 0, 20, 1}, {0, 19, 20, 1}, {0, 21, 20, 1}, {0, 20, 0, 1}, {0, 20, 19, 1}, {0, 20, 21, 1}, {1, 20, 20, 1}, {2, 20, 20, 1}, {3, 20, 20, 1}, {4, 20, 20, 1}, {5, 20, 20, 1}, {1, 20, 20, 3}, {2, 20, 20, 3}, {3, 20, 20, 3}, {4, 20, 20, 3}, {5, 20, 20, 3}, {1, 20, 20, 6}, {3, 20, 20, 6}, {1, 20, 20, 4}, {1, 20, 20, 7}},
+		Bound:    "state: mint(a0,x0) mint(a1,x1) lock(a0->lk,y,until), all amounts symbolic; then ONE operation (param 0: transfer/transferX/mint/burn/lock/newEpoch) with symbolic 20-byte (public transfer: also 0/19/21-byte) from/to free to alias any account, symbolic amount in Z (the epoch of newEpoch: -2^62 <= e < 2^62, it is turned into bytes), symbolic signer set {Alphabet,a0,a1}+stranger; committee size param3 (1; 3 and 6 for Alphabet operations, thorough also 4, 7); unwind 16"},
 	{Prop: "C02", Pkg: "balance", Func: "VerifC01Op", Link: []string{"netmap", "balance"},
-		Quick:    [][]int{{0, 20, 20}, {0, 0, 20}, {0, 20, 19}, {1, 20, 20}, {2, 20, 20}, {3, 20, 20}, {4, 20, 20}, {5, 20, 20}},
-		Thorough: [][]int{{0, 20, 20}, {0, 0, 20}, {0, 19, 20}, {0, 21, 20}, {0, 20, 0}, {0, 20, 19}, {0, 20, 21}, {1, 20, 20}, {2, 20, 20}, {3, 20, 20}, {4, 20, 20}, {5, 20, 20}},
+		Quick:    [][]int{{0, 20, 20, 1}, {0, 0, 20, 1}, {0, 20, 19, 1}, {1, 20, 20, 1}, {2, 20, 20, 1}, {3, 20, 20, 1}, {4, 20, 20, 1}, {5, 20, 20, 1}, {1, 20, 20, 3}, {3, 20, 20, 6}},
+		Thorough: [][]int{{0, 20, 20, 1}, {0, 0, 20, 1}, {0, 19, 20, 1}, {0, 21, 20, 1}, {0, 20, 0, 1}, {0, 20, 19, 1}, {0, 20, 21, 1}, {1, 20, 20, 1}, {2, 20, 20, 1}, {3, 20, 20, 1}, {4, 20, 20, 1}, {5, 20, 20, 1}, {1, 20, 20, 3}, {2, 20, 20, 3}, {3, 20, 20, 3}, {4, 20, 20, 3}, {5, 20, 20, 3}, {1, 20, 20, 6}, {3, 20, 20, 6}, {1, 20, 20, 4}, {1, 20, 20, 7}},
 		Bound:    "same scenario as C01 (one symbolic operation after mint,mint,lock); C02 assertions: a balance decreases only with the holder's witness (public transfer, from = holder) or the Alphabet's (Alphabet methods)"},
 	{Prop: "C09", Pkg: "balance", Func: "VerifC09Locks", Link: []string{"netmap", "balance"},
 		Quick: [][]int{{0}, {1}},
@@ -97,9 +97,9 @@ var registry = []Harness{
 		Quick: [][]int{{6}, {7}}, Thorough: [][]int{{6}, {7}, {8}, {9}, {16}},
 		Bound: "A record data = every string of the length given by the param (all bytes symbolic, dots anywhere)"},
 	{Prop: "C18", Unwind: 300, Pkg: "nns", Func: "VerifC18IPv6Shape", Link: []string{"nns"},
-		Quick:    [][]int{{1, 4, 3, 9, 1, 0}, {1, 4, 4, 9, 1, 0}, {1, 4, 9, 1, 0}, {1, 4, 9, 0}, {0, 9, 1, 0}, {1, 4, 1, 1, 1, 1, 1, 1, 1, 0}, {1, 4, 4, 4, 4, 4, 4, 4, 4, 0}, {0, 4, 1, 1, 0}, {0, 4, 5, 9, 1, 0}, {1, 4, 2, 9, 2, 1, 0}, {1, 4, 1, 1, 1, 1, 1, 1, 9, 0}},
-		Thorough: [][]int{{1, 4, 3, 9, 1, 0}, {1, 4, 4, 9, 1, 0}, {1, 4, 9, 1, 0}, {1, 4, 9, 0}, {0, 9, 1, 0}, {1, 4, 1, 1, 1, 1, 1, 1, 1, 0}, {1, 4, 4, 4, 4, 4, 4, 4, 4, 0}, {0, 4, 1, 1, 0}, {0, 4, 5, 9, 1, 0}, {1, 4, 2, 9, 2, 1, 0}, {1, 4, 1, 9, 0}, {1, 4, 2, 9, 0}, {1, 4, 3, 9, 0}, {1, 4, 4, 9, 0}, {0, 3, 4, 9, 1, 0}, {1, 4, 1, 1, 1, 1, 1, 1, 9, 0}, {0, 4, 1, 1, 1, 1, 1, 1, 1, 1}, {0, 4, 1, 1, 1, 1, 1, 1, 9, 1}, {0, 4, 9, 1, 9, 1, 0}, {1, 4, 3, 3, 9, 4, 0}},
-		Bound:    "AAAA record data = colon-free groups of the lengths given by the params (9 = the '::' gap), every byte fully symbolic"},
+		Quick:    [][]int{{1, 4, 3, 9, 1, 0}, {1, 4, 4, 9, 1, 0}, {1, 4, 9, 1, 0}, {1, 4, 9, 0}, {0, 9, 1, 0}, {1, 4, 1, 1, 1, 1, 1, 1, 1, 0}, {1, 4, 4, 4, 4, 4, 4, 4, 4, 0}, {0, 4, 1, 1, 0}, {0, 4, 5, 9, 1, 0}, {1, 4, 2, 9, 2, 1, 0}, {1, 4, 1, 1, 1, 1, 1, 1, 9, 0}, {1, 4, 9, 3, 1, 1, 1, 1, 1, 0}, {0, 9, 4, 1, 1, 1, 1, 1, 1, 0}, {1, 4, 4, 9, 1, 1, 1, 1, 1, 0}},
+		Thorough: [][]int{{1, 4, 9, 3, 1, 1, 1, 1, 1, 0}, {0, 9, 4, 1, 1, 1, 1, 1, 1, 0}, {1, 4, 4, 9, 1, 1, 1, 1, 1, 0}, {1, 4, 1, 1, 9, 1, 1, 1, 1, 0}, {1, 4, 1, 1, 1, 9, 1, 1, 1, 0}, {1, 4, 1, 1, 1, 1, 9, 1, 1, 0}, {1, 4, 1, 1, 1, 1, 1, 9, 1, 0}, {1, 4, 9, 4, 4, 0}, {1, 4, 9, 4, 4, 4, 0}, {1, 4, 3, 9, 1, 0}, {1, 4, 4, 9, 1, 0}, {1, 4, 9, 1, 0}, {1, 4, 9, 0}, {0, 9, 1, 0}, {1, 4, 1, 1, 1, 1, 1, 1, 1, 0}, {1, 4, 4, 4, 4, 4, 4, 4, 4, 0}, {0, 4, 1, 1, 0}, {0, 4, 5, 9, 1, 0}, {1, 4, 2, 9, 2, 1, 0}, {1, 4, 1, 9, 0}, {1, 4, 2, 9, 0}, {1, 4, 3, 9, 0}, {1, 4, 4, 9, 0}, {0, 3, 4, 9, 1, 0}, {1, 4, 1, 1, 1, 1, 1, 1, 9, 0}, {0, 4, 1, 1, 1, 1, 1, 1, 1, 1}, {0, 4, 1, 1, 1, 1, 1, 1, 9, 1}, {0, 4, 9, 1, 9, 1, 0}, {1, 4, 3, 3, 9, 4, 0}},
+		Bound:    "AAAA record data = colon-free groups of the lengths given by the params (9 = the '::' gap), every byte fully symbolic; the gap standing for exactly one zero group is tried in positions 0, 1, 2 and 7 (thorough: all eight), so that a group written after the gap lands in each of the eight words"},
 	{Prop: "C18", Unwind: 300, Pkg: "nns", Func: "VerifC18IPv6Free", Link: []string{"nns"},
 		Quick: [][]int{{1}, {5}, {6}}, Thorough: [][]int{{1}, {2}, {5}, {6}, {7}, {8}, {40}},
 		Bound: "AAAA record data = every string of the length given by the param (all bytes symbolic)"},
@@ -156,7 +156,7 @@ var registry = []Harness{
 		Bound:    "NNS with one TLD; pool names a.com, b.com, x.a.com, owners o1,o2; the step kinds and names are the params (register / transfer / renew / time passes), within a step the signer, receiver, lifetime 1..4*10^8 s, years 0..11 and the time span 1..3*10^6 ms are symbolic; after every step totalSupply, balanceOf, tokensOf, isAvailable and ownerOf of the name are compared with a reference model (block clock symbolic)"},
 	{Prop: "C11", Pkg: "nns", Func: "VerifC11Authorisation", Link: []string{"nns"},
 		Quick: c11Params(false), Thorough: c11Params(true),
-		Bound: "history: a.com registered by o1, one record, admin a1 (variant 0) / then transferred to o2 (variant 1); ONE invocation of the method given by param1 (addRecord, setRecord, deleteRecords, updateSOA, renew, setAdmin, transfer, register 3rd level, register 2nd level, registerTLD, setPrice) with a symbolic signer set over {o1,o2,o3,a1,new admin,committee}+stranger; committee size param2"},
+		Bound: "history: a.com registered by o1, one record, admin a1 (variant 0) / then transferred to o2 (variant 1); ONE invocation of the method given by param1 (addRecord, setRecord, deleteRecords, updateSOA, renew, setAdmin, transfer, register 3rd level, register 2nd level, registerTLD, setPrice, register 4th level under a 3rd-level name of another owner) with a symbolic signer set over {o1,o2,o3,a1,new admin,committee}+stranger; committee size param2"},
 	{Prop: "C12", Pkg: "nns", Func: "VerifC12Records", Link: []string{"nns"}, Unwind: 100,
 		Bound: "one registered name; a fixed sequence of record operations (add, add-possibly-duplicate, setRecord with symbolic index 0..2, add to an unregistered sub-name, registration attempt of a name whose sub-name has records, delete SOA, delete TXT) with symbolic 3-byte record data and a symbolic block clock; getRecords/getAllRecords and the SOA record (serial = time of the last mutation) compared with a model after each step"},
 	{Prop: "C12", Pkg: "nns", Func: "VerifC12Limits", Link: []string{"nns"}, Unwind: 100,
@@ -214,13 +214,13 @@ func c03Params(sizes []int) [][]int {
 func c11Params(thorough bool) [][]int {
 	var out [][]int
 	for v := 0; v < 2; v++ {
-		for m := 0; m <= 10; m++ {
+		for m := 0; m <= 11; m++ {
 			n := 1
-			if m >= 9 {
+			if m == 9 || m == 10 {
 				n = 7
 			}
 			out = append(out, []int{v, m, n})
-			if thorough && m >= 9 {
+			if thorough && (m == 9 || m == 10) {
 				out = append(out, []int{v, m, 1}, []int{v, m, 4})
 			}
 		}
